@@ -109,6 +109,9 @@ def req_cases(tier: str, rng: random.Random) -> List[Dict[str, Any]]:
             if x["api"] == "create_context":
                 x["api"] = "create_keep"
         out.append(dict(kind="req", ps=[a, b]))
+    # the same socket objects used by an earlier run of the application in another network
+    for c_ in [x for x in out if len(x["ps"]) == 1][::9]:
+        out.append(dict(kind="req", ps=[dict(c_["ps"][0])], earlier_run=True))
     # two requests of DIFFERENT types on the same socket whose other parameters are all equal
     def mk(api, tp, **kw):
         p = dict(tp=tp, number=1, time_unit=0, max_time=0, rot_local=[0, 0, 0], rot_remote=[0, 0, 0], basis_local="", basis_remote="",
@@ -143,6 +146,11 @@ def _run_req(item):
             if (p["remote_node"], p["socket"]) not in keys:
                 keys.append((p["remote_node"], p["socket"]))
         socks = {k_: EPRSocket(NODE[k_[0]], epr_socket_id=k_[1]) for k_ in keys}
+        if c.get("earlier_run"):
+            # the application ran before in this process, with the same socket objects, in a network where the remote
+            # applications sat on other nodes
+            conn0 = rig.VConnection("alice", max_qubits=8, epr_sockets=list(socks.values()), node_ids={"verif": 0, "alice": 0, "bob": 2, "charlie": 1})
+            conn0.flush()
         conn = rig.VConnection("alice", max_qubits=8, epr_sockets=list(socks.values()))
         conn.stack.get_purpose_id = lambda remote_node_id, epr_socket_id: PURPOSE(remote_node_id, epr_socket_id)
         conn.ex.meas_script = [0] * 40
@@ -446,7 +454,7 @@ def run(prop: str, tier: str) -> int:
 
 
 def replay_case(prop, case, tmp):
-    keep = ("kind", "ps", "reqs", "salt", "expect", "reverse", "q10", "consume")
+    keep = ("kind", "ps", "reqs", "salt", "expect", "reverse", "q10", "consume", "earlier_run")
     row = _dispatch((1, {k: case[k] for k in keep if k in case}))
     res = C.run_tlc_sharded("EprFields", [row], tmp, shards=1, cfg="EprFields.cfg")
     return res.verdicts[0][1] if res.verdicts else None
